@@ -1,5 +1,7 @@
 """Helpers shared by C16 / C17 / C18: `.await` edges, ownership (where a value is given up),
-spawned-coroutine resolution, tokio::select! branch identification, panic-site enumeration.
+spawned / boxed coroutine resolution, tokio::select! branch identification, path-sensitive enum-variant
+propagation (variant_flow: dead match arms, execution under a hypothesis about a configuration value),
+panic-site enumeration per source-level function item.
 
 Everything here works on calls, slices and dominance; nothing keys on block numbers,
 line numbers or the textual shape of a macro expansion."""
@@ -566,7 +568,7 @@ def variant_flow(fn, assume=None):
                             gen = ("p", i)
             elif rv["rv"] == "use" and rv["op"].get("k") in ("copy", "move"):
                 src = rv["op"]["pl"]
-                kv = known(state, src)
+                kv = known(state, src, count)
                 if kv is not None:
                     gen = ("p", kv)
                 elif not src["p"] and ("b", src["l"]) in state:
